@@ -127,6 +127,12 @@ def d13():  # C20.R4
     return lib.entries[0].key == "probed"
 
 
+def d14():  # C13 partition
+    from bibtexparser.middlewares.names import parse_single_name_into_parts as pn
+    a, b = pn("jean De fontaine"), pn("AA bb CC dd")
+    return (a.von, a.last) == (["jean"], ["De", "fontaine"]) and (b.first, b.von, b.last) == (["AA"], ["bb"], ["CC", "dd"])
+
+
 if __name__ == "__main__":
     bad = 0
     for name, f in sorted(((k, v) for k, v in globals().items() if k[0] == "d" and k[1:].isdigit()), key=lambda kv: int(kv[0][1:])):
